@@ -1,4 +1,4 @@
-SPECIFICATION Rounds
+SPECIFICATION Live
 CONSTANTS
   Nodes = {1, 2, 3, 4}
   Local = 1
@@ -8,9 +8,10 @@ CONSTANTS
   EcLens = {}
   Families = {}
   N = 4
-  Reps = {1, 2, 3}
-  RuleCounts = {1}
-  ListLens = {1, 2, 3, 4}
-  MaxRounds = 3
-INVARIANTS NeverEmpty TaskOK ConvergedInTime
+  Reps = {1, 2}
+  RuleCounts = {2}
+  ListLens = {1, 2}
+  MaxRounds = 9
+INVARIANTS NeverEmpty TaskOK
+PROPERTIES EventuallyConvergedForever
 CHECK_DEADLOCK FALSE
